@@ -1,5 +1,6 @@
 import TracklibVerif.Lemmas.ObsTimeG
 import TracklibVerif.Lemmas.ObsTimeZone
+import TracklibVerif.Model.ObsTimeOperand
 import Mathlib.Algebra.Order.Floor.Ring
 import Mathlib.Data.Rat.Floor
 /-! # C03 — timestamps convert to and from epoch seconds without drifting or deforming
@@ -8,7 +9,9 @@ Property theorems only (helper lemmas are in `Lemmas/ObsTime.lean`, `Lemmas/ObsT
 integer model (`Model/ObsTime.lean`, integer milliseconds); T7–T14 are about the scalar-polymorphic model of the
 float path (`Model/ObsTimeG.lean`) over a linearly ordered field with an exact `int()`, and reduce it to the
 integer model. Z1–Z13 are about the `zone` label, `convertToZone`, the `Track` zone methods, `getDayOfWeek`,
-`printZone` and about which call creates or modifies an object (`Model/ObsTimeZone.lean`).
+`printZone` and about which call creates or modifies an object (`Model/ObsTimeZone.lean`). O1–O2 are about what may
+stand on the other side of a comparison operator: a timestamp of any class derived from `ObsTime`, or an object that
+is not a timestamp (`Model/ObsTimeOperand.lean`).
 All statements are for every instant / every well-formed stamp, with no bound on the year. -/
 namespace TV.C03
 open TV.ObsTime
@@ -562,5 +565,42 @@ example : (civilDays 2018 6 15 + 3) % 7 = 4 := by decide +kernel
 /-- a program: read, overwrite the hour of the result, read again — two objects, the second one untouched -/
 example : (run (α := Rat) (fun x => ⌊x⌋) State.empty [.read 86399, .set 0 3 0, .read 86399]).1.store
     = [⟨⟨1970, 1, 1, 0, 59, 59, 0⟩, 0⟩, ⟨⟨1970, 1, 1, 23, 59, 59, 0⟩, 0⟩] := by decide +kernel
+
+/-! ## What stands on the other side of a comparison operator (`Model/ObsTimeOperand.lean`) -/
+
+private theorem bool_of_iff {b : Bool} {p : Prop} [Decidable p] (h : b = true ↔ p) : b = decide p := by
+  cases b <;> simp_all
+
+/-- O1: with a timestamp of ANY class on either side (`ObsTime` itself or a class derived from it: `isinstance` is all
+`__eq__` asks, the order operators ask nothing) the six operators `[<, >, ==, <=, >=, !=]` answer, on well-formed
+stamps, what the order of the epoch milliseconds says: the class of neither operand is read. -/
+theorem cmpO_inst (ca cb : Nat) (a b : Stamp) (ha : WFs a) (hb : WFs b) :
+    cmpO ca a (.inst cb b)
+      = [some (decide (toAbsMs a < toAbsMs b)), some (decide (toAbsMs a > toAbsMs b)),
+         some (decide (toAbsMs a = toAbsMs b)), some (decide (toAbsMs a ≤ toAbsMs b)),
+         some (decide (toAbsMs a ≥ toAbsMs b)), some (decide (toAbsMs a ≠ toAbsMs b))] := by
+  have h1 := bool_of_iff (lt_iff a b ha hb)
+  have h2 := bool_of_iff (gt_iff a b ha hb)
+  have h3 := bool_of_iff (eq_iff a b ha hb)
+  have h4 := bool_of_iff (le_iff a b ha hb)
+  have h5 := bool_of_iff (ge_iff a b ha hb)
+  have h6 : neS a b = decide (toAbsMs a ≠ toAbsMs b) := by
+    have := eq_iff b a hb ha
+    unfold neS
+    cases h : eqS b a <;> simp [h] at this ⊢ <;> omega
+  show [some (ltS a b), some (gtS a b), some (eqS a b), some (leS a b), some (geS a b), some (neS a b)] = _
+  rw [h1, h2, h3, h4, h5, h6]
+
+/-- O2: an operand that is not a timestamp (`None`, a number, a string, a tuple of the fields …) is equal to no
+timestamp and different from every one; the four order operators raise (`AttributeError` of `time.year`). No
+hypothesis on the stamp. -/
+theorem cmpO_other (c : Nat) (a : Stamp) :
+    cmpO c a .other = [none, none, some false, none, none, some true] := rfl
+
+/-- non-vacuity: an instance of the first derived class and a plain `ObsTime` on the same leap-day second; one second apart. -/
+example : cmpO 1 ⟨⟨2020, 2, 29, 23, 59, 58⟩, 0⟩ (.inst 0 ⟨⟨2020, 2, 29, 23, 59, 58⟩, 0⟩)
+    = [some false, some false, some true, some true, some true, some false] := by decide
+example : cmpO 0 ⟨⟨2020, 2, 29, 23, 59, 58⟩, 0⟩ (.inst 2 ⟨⟨2020, 2, 29, 23, 59, 59⟩, 0⟩)
+    = [some true, some false, some false, some true, some false, some true] := by decide
 
 end TV.C03
